@@ -7,7 +7,7 @@ from mcx.ref import report
 PID = 'C16'
 CHUNK = 2
 TOLERANCE = 'point count exact; coordinates 1e-9*scale (API), print precision 5e-6 rel / 1e-6 abs (report)'
-RULE = ('Per axis: start in {0,0.1,-0.3,1,0.7,1000} x step in {1,0.1,0.05,0.3,1/3,1e-3,7.3,-0.1,-0.5} x count in the '
+RULE = ('Per axis: start in {0,0.1,-0.3,1,0.7,1000} x step in {1,0.1,0.05,0.3,1/3,1e-3,7.3,-0.1,-0.5,0} x count in the '
         'count set (quick: 1..12,17,33,64,100; thorough: 1..100), other axes count 1; all 2- and 3-axis combinations '
         'for counts <=4 from a reduced menu (ordering); same menus for theta and phi of the far field. Each grid is '
         'requested through the API on a 1-pulse model and (reduced set) through main() with the report parsed. '
@@ -17,7 +17,7 @@ RULE = ('Per axis: start in {0,0.1,-0.3,1,0.7,1000} x step in {1,0.1,0.05,0.3,1/
 ASSUMPTIONS = ['documented order taken from the original program / golden reports: X fastest, then Y, then Z; per azimuth all zenith angles']
 
 STARTS = [0., 0.1, -0.3, 1., 0.7, 1000.]
-STEPS = [1., 0.1, 0.05, 0.3, 1. / 3, 1e-3, 7.3, -0.1, -0.5]
+STEPS = [1., 0.1, 0.05, 0.3, 1. / 3, 1e-3, 7.3, -0.1, -0.5, 0.0]
 WIRE = ['-f', '10', '-w', '2,-5000,-5000,-5000,-5000,-5000,-4990,0.001', '--excitation-pulse=1']
 
 
